@@ -8,7 +8,7 @@ THEOREMS = ["C04_code_conforms", "C04_tasks_are_zip", "C04_emitted_exactly_once"
 
 def special_shapes(rng, i):
     """shapes the random generator reaches rarely: port-less process, FromStr longer than the buffer, long chains, wide fan-out, single-port fan-in"""
-    kind = i % 5
+    kind = i % 6
     buf = rng.choice([1, 2, 3])
     sp = t3.Spec(maxtasks=rng.randint(1, 4), bufsize=buf)
     L = buf + rng.randint(0, 3)
@@ -35,6 +35,13 @@ def special_shapes(rng, i):
         b = sp.proc(t3.Proc("right", kind="cattok", ins=[("a", [(s, "out")])], outs=[("o", "{i:a}.right")]))
         sp.proc(t3.Proc("extra", kind="cat", ins=[("a", [(s, "out")])], outs=[("o", "{i:a}.extra")]))
         sp.proc(t3.Proc("join", kind="cat", ins=[("x", [(a, "o")]), ("y", [(b, "o")])], outs=[("o", "{i:x}.joined")]))
+    elif kind == 5:    # independent multi-slot processes competing for a pool that partial allocations could exhaust
+        sp = t3.Spec(maxtasks=rng.choice([2, 3, 4]), bufsize=buf)
+        c = rng.randint(2, sp.max)
+        for k in range(rng.randint(2, 4)):
+            a = sp.proc(t3.Proc("gen%d" % k, kind="write", pars=[("q", ("V", ["v%d" % j for j in range(L)]))], outs=[("o", "gen%d.{p:q}.txt" % k)], cores=c))
+            sp.proc(t3.Proc("use%d" % k, kind="cat", ins=[("a", [(a, "o")])], outs=[("o", "{i:a}.use")], cores=rng.randint(1, sp.max)))
+        sp.force_yield = True
     else:              # fan-in of two upstreams into the single port of a process
         pa = ["fa%d.txt" % j for j in range(L)]
         pb = ["fb%d.txt" % j for j in range(rng.randint(0, L))]
@@ -54,8 +61,19 @@ def case(args):
         sp = special_shapes(rng, i // 3)
     else:
         sp = t3.gen_workflow(rng, maxlen=rng.choice([4, 5, 6]), fanin=False)
-    ys = (rng.randint(1, 10**6), rng.choice([50, 300, 2000])) if rng.random() < 0.5 else None
-    return t3.success_case(sp, yield_seed=ys, gomaxprocs=rng.choice([None, 1, 2]))
+    if rng.random() < 0.4:     # tasks that take several of the concurrency slots each
+        for p in sp.procs():
+            p.cores = rng.randint(1, sp.max)
+    ys = (rng.randint(1, 10**6), rng.choice([50, 300, 2000])) if rng.random() < 0.5 or getattr(sp, "force_yield", False) else None
+    gmp = rng.choice([None, 1, 2])
+    if getattr(sp, "force_yield", False):
+        # the schedule matters here: several delay seeds for the same workflow
+        for k in range(6):
+            r = t3.success_case(sp, yield_seed=(ys[0] + k, rng.choice([50, 300, 1000])), gomaxprocs=gmp)
+            if r["problems"]:
+                break
+        return r
+    return t3.success_case(sp, yield_seed=ys, gomaxprocs=gmp)
 
 
 def run(rep, tier, seed):
@@ -68,7 +86,7 @@ def run(rep, tier, seed):
     t3.report_t3(rep, MODULE, proved, results, "T3 workflows vs WfModel")
     rep.cov["evaluations"] = len(results)
     rep.cov["distinct_nontrivial"] = len({r["spec"] for r in results if r["ntasks"] >= 2})
-    rep.cov["rule"] = "random acyclic workflows (1-2 file sources, optional parameter source / FromStr, 1-5 processes with 1-2 in-ports, 1-2 outputs, SetOut patterns or default names) and special shapes (port-less process, FromStr and chains longer than the buffer, diamonds with fan-out, single-port fan-in), SCIPIPE_BUFSIZE in {1,2,3,128}, maxConcurrentTasks 1-4, GOMAXPROCS in {default,1,2}, seeded delays at the hook points in half of the runs; each run on the real library, compared with the Coq reference evaluator: exit status, exact file set and bytes, multiset of executed task keys; non-trivial = at least two executed tasks"
+    rep.cov["rule"] = "random acyclic workflows (1-2 file sources, optional parameter source / FromStr, 1-5 processes with 1-2 in-ports, 1-2 outputs, SetOut patterns or default names) and special shapes (port-less process, FromStr and chains longer than the buffer, diamonds with fan-out, single-port fan-in, independent multi-slot processes), SCIPIPE_BUFSIZE in {1,2,3,128}, maxConcurrentTasks 1-4, CoresPerTask 1..max in 40% of the runs, GOMAXPROCS in {default,1,2}, seeded delays at the hook points in half of the runs; each run on the real library, compared with the Coq reference evaluator: exit status, exact file set and bytes, multiset of executed task keys; non-trivial = at least two executed tasks"
     rep.cov["samples"] = [results[0]["spec"], results[1]["spec"]]
     rep.notes["input_distribution"] = {"runs": len(results), "tasks_executed_total": sum(r["ntasks"] for r in results),
                                        "with_delays": sum(1 for r in results if r["yield"]), "bufsize_hist": {str(b): sum(1 for r in results if r["bufsize"] == b) for b in (1, 2, 3, 128)},
